@@ -81,6 +81,7 @@ class C03(Scenario):
         while not any(s["p"] in specmod.HAS_Q for _, s in specmod.walk(sp)) and k < 30:
             sp = specmod.gen_spec(t, opts)
             k += 1
+        specmod.use_unweighted(sp, rng.fork("unweighted"))
         crit = specmod.critical_values(sp, regime)
         d = rng.fork("data")
         n = d.randint(0, 150 if (big and d.chance(0.2)) else 30)
